@@ -18,7 +18,9 @@ Inductive outcome :=
 | OUnifyError                      (* UnifyError: the engine turns it into failure *)
 | OStuck (e : string).             (* any other Python exception: a crash *)
 
-Definition is_stuck (o : outcome) : bool := match o with OStuck _ => true | _ => false end.
+(* UnifyError is not a ProbLogError: the engine turns it into failure only when the call is the first goal of a
+   clause body (engine_stack.eval_clause); anywhere else it escapes -- so it counts as stuck. *)
+Definition is_stuck (o : outcome) : bool := match o with OStuck _ | OUnifyError => true | _ => false end.
 
 (* ---- partial primitives *)
 Inductive res (A : Type) := RVal (a : A) | ROut (o : outcome).
@@ -115,6 +117,8 @@ Definition body_plus (args : list pterm) : outcome :=
   end.
 
 (* ---- length/2 *)
+(* does the source still `raise UnifyError()` for a too-short requested length?  (read off the translated inventory) *)
+Definition length_raises_unify : bool := existsb (String.eqb "raise UnifyError") prims_builtin_length.
 Definition body_length (args : list pterm) : outcome :=
   match args with
   | [l; n] =>
@@ -130,7 +134,7 @@ Definition body_length (args : list pterm) : outcome :=
           let elements := if Nat.eqb mode 2 then fst (list_elements l) else [] in
           bindo (int_of n) (fun n_v =>
             let remain := (n_v - Z.of_nat (List.length elements))%Z in
-            if (remain <? 0)%Z then OUnifyError
+            if (remain <? 0)%Z then (if length_raises_unify then OUnifyError else ORes [])
             else ORes [[build_list (elements ++ repeat (PSlot 0) (Z.to_nat remain)) nil_term; n]]))
   | _ => bad_arity
   end.
@@ -222,8 +226,8 @@ Definition body_atom_number (args : list pterm) : outcome :=
           match atom with
           | PApp f _ =>
               match special_float f with                                  (* v = float(atom.functor) *)
-              | Some (FInf _) => OStuck "OverflowError"                    (* round(v) *)
-              | Some FNan => OStuck "ValueError"                           (* round(v), outside the try *)
+              | Some (FInf _) => if atom_number_round_guarded then OAny else OStuck "OverflowError"   (* round(v) *)
+              | Some FNan => if atom_number_round_guarded then OAny else OStuck "ValueError"       (* round(v), outside the try *)
               | _ => OUnknown                                              (* numeral syntax is not modelled *)
               end
           | _ => OStuck "AttributeError"
@@ -243,7 +247,9 @@ Definition body_nocache (args : list pterm) : outcome :=
 Definition body_numbervars (args : list pterm) : outcome :=
   match args with
   | [term; start; output] =>
-      with_mode "_builtin_numbervars" args (fun _ => bindo (int_of start) (fun _ => bindo (attr_ok term) (fun _ => OAny)))
+      with_mode "_builtin_numbervars" args (fun _ => bindo (int_of start) (fun _ => bindo (attr_ok term) (fun _ =>
+        (* unify_value(term.apply(..), output) outside any try: UnifyError escapes unless output is unbound *)
+        if is_var_b output || negb (existsb (String.eqb "unguarded:unify_value") prims_builtin_numbervars) then OAny else OUnknown)))
   | _ => bad_arity
   end.
 
@@ -319,7 +325,11 @@ Definition bin_op (name : string) (v w : aval) : ares :=
   | _, _ => AUnknown
   end.
 
-(* Term.compute_value -> compute_function (shape pinned by the translator) *)
+(* the `except` clauses of compute_function (translated: arith_caught) turn these exceptions into ArithmeticError *)
+Definition catch (r : ares) : ares :=
+  match r with AStuck e => if mem e arith_caught then AErr else r | _ => r end.
+
+(* Term.compute_value -> compute_function (shape pinned by the translator, handlers translated) *)
 Fixpoint aeval (t : pterm) : ares :=
   match t with
   | PNone | PSlot _ => AStuck "AttributeError"
@@ -331,6 +341,7 @@ Fixpoint aeval (t : pterm) : ares :=
   | PApp f args =>
       let name := unquote f in
       if negb (known_function name (List.length args)) then AErr else
+      catch
       match args with
       | [] => AV VF
       | [x] => match aeval x with AV v => un_op name v | r => r end
@@ -379,7 +390,8 @@ Definition body_cmp (pyname : string) (args : list pterm) : outcome :=
             | AV w =>
                 match v, w with
                 | VI x, VI y => OBool (f x y)
-                | VS _, VI _ | VI _, VS _ => if is_ordering pyname then OStuck "TypeError" else OAny
+                | VS _, VI _ | VI _, VS _ =>
+                    if is_ordering pyname then (if mem pyname cmp_type_guarded then OArithError else OStuck "TypeError") else OAny
                 | _, _ => OAny
                 end
             | AErr => OArithError | AStuck e => OStuck e | AUnknown => OUnknown
@@ -444,3 +456,42 @@ Definition outcome_agrees (model observed : outcome) : bool :=
   | OStuck e, OStuck e' => String.eqb e e'
   | _, _ => false
   end.
+
+(* ------------------------------------------------------------------ which partial Python primitives the bodies above account for.
+   The translator regenerates the inventory from the source (GenModes.all_prims); Props.v states that every
+   generated entry is accounted for here, so a NEW `int(x)` / attribute access / subscript / raise / unguarded
+   unify_value in a modelled body breaks an obligation.
+     int(x)            -> int_of            x.functor/.args/.arity/.with_args/.apply -> attr_ok
+     x.args[i]         -> nth_error (OStuck "IndexError")      elements[0](...)     -> call_term
+     compares[1 - cp]  -> in range because struct_cmp returns -1/0/1 (C15)
+     float(atom.functor), round(v), int(v) -> special_float / OUnknown
+     x.compute_value, cmp:a < b -> aeval / body_cmp            range(..), cmp on ints -> total
+     raise UnifyError -> OUnifyError      raise CallModeError -> OCallModeError
+     set(..)/sorted(..) -> OAny under the C15 assumption *)
+Definition accounted_prims : list (string * list string) :=
+  [("_builtin_between", ["cmp:low_v <= value_v <= high_v"; "int(high)"; "int(low)"; "int(value)"; "range(low_v, high_v + 1)"]);
+   ("_builtin_succ", ["int(a)"; "int(b)"]);
+   ("_builtin_plus", ["int(a)"; "int(b)"; "int(c)"]);
+   ("_builtin_length", ["cmp:remain < 0"; "int(n)"; "raise UnifyError"; "range(min_var, min_var - remain, -1)"]);
+   ("_builtin_functor", ["int(arity)"; "term.arity"; "term.functor"]);
+   ("_builtin_arg", ["cmp:0 <= index_v < len(term.args)"; "int(index)"; "term.args"; "term.args[index_v]"]);
+   ("_builtin_split_call", ["call:elements[0]"; "cmp:len(elements) > 1"; "elements[0]"; "elements[1:]"; "raise CallModeError"; "term.args"; "term.with_args"]);
+   ("_builtin_sort", ["set(elements)"; "sorted(set(elements), key=StructSort)"]);
+   ("_builtin_compare", ["c.functor"; "compares[1 - cp]"]);
+   ("_builtin_atom_number", ["atom.functor"; "float(atom.functor)"; "int(v)"; "round(v)"]);
+   ("_builtin_is", ["b.compute_value"]);
+   ("_builtin_gt", ["arg1.compute_value"; "arg2.compute_value"; "cmp:a_value > b_value"]);
+   ("_builtin_lt", ["arg1.compute_value"; "arg2.compute_value"; "cmp:a_value < b_value"]);
+   ("_builtin_le", ["arg1.compute_value"; "arg2.compute_value"; "cmp:a_value <= b_value"]);
+   ("_builtin_ge", ["arg1.compute_value"; "arg2.compute_value"; "cmp:a_value >= b_value"]);
+   ("_builtin_val_neq", ["a.compute_value"; "b.compute_value"]);
+   ("_builtin_val_eq", ["a.compute_value"; "b.compute_value"]);
+   ("_builtin_nocache", ["int(arity)"]);
+   ("_builtin_numbervars", ["int(start)"; "self._table[item]"; "term.apply"; "unguarded:unify_value"])].
+
+(* every primitive the translator finds in a modelled body is accounted for (removing one, e.g. by a repair, is fine) *)
+Definition prims_accounted : bool :=
+  forallb (fun g => match find (fun a => String.eqb (fst a) (fst g)) accounted_prims with
+                    | Some a => forallb (fun p => mem p (snd a)) (snd g)
+                    | None => false end) all_prims
+  && Nat.eqb (List.length all_prims) (List.length accounted_prims).
